@@ -552,6 +552,21 @@ pub fn min_width(env: &Env, ty: &Ty, depth: u32) -> usize {
 	}
 }
 
+/// true when some array / map element type can be encoded in zero bytes (then the work a reader does is
+/// bounded by counts written in the data, not by the data's length)
+pub fn has_zero_width_elements(env: &Env, ty: &Ty, depth: u32) -> bool {
+	if depth > 8 {
+		return false;
+	}
+	match env.resolve(ty) {
+		Ty::Array(t) => min_width(env, t, 0) == 0 || has_zero_width_elements(env, t, depth + 1),
+		Ty::Map(t) => has_zero_width_elements(env, t, depth + 1),
+		Ty::Union(ts) => ts.iter().any(|t| has_zero_width_elements(env, t, depth + 1)),
+		Ty::Record { fields, .. } => fields.iter().any(|(_, t)| has_zero_width_elements(env, t, depth + 1)),
+		_ => false,
+	}
+}
+
 pub fn gen_schema_for(rng: &mut Rng, p: &SpecProfile) -> Ty {
 	for _ in 0..50 {
 		let corner = ast::corner_schemas();
@@ -565,8 +580,11 @@ pub fn gen_schema_for(rng: &mut Rng, p: &SpecProfile) -> Ty {
 			}
 			ast::gen_schema(rng, cfg)
 		};
-		if p.min_width_one && min_width(&Env::build(&schema), &schema, 0) == 0 {
-			continue;
+		if p.min_width_one {
+			let env = Env::build(&schema);
+			if min_width(&env, &schema, 0) == 0 || has_zero_width_elements(&env, &schema, 0) {
+				continue;
+			}
 		}
 		return schema;
 	}
@@ -779,7 +797,8 @@ pub fn gen_c11_container(rng: &mut Rng) -> c11::Scn {
 		max_ops: 6,
 		heavy_codecs: true,
 		big_blobs: false,
-		min_width_one: false,
+		// damaged files: keep the work per input byte bounded (no zero-width array elements)
+		min_width_one: true,
 		push_ops: true,
 	};
 	let spec = gen_filespec(rng, &profile);
